@@ -210,21 +210,24 @@ class Hang(Exception):
 
 
 def _on_alarm(signum, frame):
-    raise Hang("step horizon exceeded (wall-clock alarm)")
+    raise Hang("step horizon exceeded (CPU-time alarm)")
 
 
 class horizon:
-    """Abort one execution that does not come back ('make waiting visible')."""
+    """Abort one execution that does not come back ('make waiting visible').
+
+    The budget is CPU time of this process (ITIMER_PROF), not wall-clock time,
+    so a loaded machine cannot turn a slow-but-finite execution into an alarm."""
 
     def __init__(self, seconds=5.0):
         self.seconds = seconds
 
     def __enter__(self):
-        signal.signal(signal.SIGALRM, _on_alarm)
-        signal.setitimer(signal.ITIMER_REAL, self.seconds)
+        signal.signal(signal.SIGPROF, _on_alarm)
+        signal.setitimer(signal.ITIMER_PROF, self.seconds)
 
     def __exit__(self, *a):
-        signal.setitimer(signal.ITIMER_REAL, 0)
+        signal.setitimer(signal.ITIMER_PROF, 0)
         return False
 
 
